@@ -236,6 +236,21 @@ def tcp_units(conn, flights):
     return units, streams, recranges
 
 
+_BUILD_CACHE = {}
+
+
+def _cached_build(kind, conn, fn):
+    """the peers' byte streams are a pure function of the connection spec; fault / variant loops re-expand the same
+    connections many times, so the (crypto-heavy) construction is memoised per process (results are read-only)"""
+    key = kind + hashlib.sha256(json.dumps(conn, sort_keys=True).encode()).hexdigest()
+    hit = _BUILD_CACHE.get(key)
+    if hit is None:
+        if len(_BUILD_CACHE) > 96:
+            _BUILD_CACHE.clear()
+        hit = _BUILD_CACHE[key] = fn(conn)
+    return hit
+
+
 def expand(spec):
     """-> dict(capture, keylog, argv, truth, taplog, stats)"""
     w = World(spec)
@@ -243,7 +258,7 @@ def expand(spec):
     infos = {}
     for conn in conns:
         if conn["proto"] == "tls":
-            flights, keylog, keys = tlsconn.build(conn)
+            flights, keylog, keys = _cached_build("tls", conn, tlsconn.build)
             units, streams, recranges = tcp_units(conn, flights)
             w.built[conn["id"]] = {"keylog": keylog, "keys": keys}
             infos[conn["id"]] = {"flights": flights, "streams": streams, "recranges": recranges, "keys": keys}
@@ -254,7 +269,7 @@ def expand(spec):
             infos[conn["id"]] = {"flights": flights, "streams": streams, "recranges": recranges, "keys": {}}
         elif conn["proto"] in ("quic", "udp"):
             from . import quicconn
-            units, qinfo = quicconn.build_units(conn)
+            units, qinfo = _cached_build("udp", conn, quicconn.build_units)
             w.built[conn["id"]] = {"keylog": qinfo.get("keylog", []), "keys": qinfo.get("keys", {"client_random": ""})}
             infos[conn["id"]] = qinfo
         else:
